@@ -1,0 +1,7 @@
+//go:build verif
+
+package truthsocial
+
+// C10 safety sweep (govc `sweep`): index / slice / division expressions must not panic on
+// server-controlled input. Comment-only file.
+
